@@ -874,3 +874,27 @@ func (w *World) paramElemWrites() map[*ssa.Function]map[int]bool {
 	}
 	return out
 }
+
+// statusClass classifies a path fact about a three-valued solver.Status (Indet / Sat / Unsat): "true", "false",
+// "unbound" when the fact pins it (`=k`, or `!=a,b` leaving one value), "" when it does not.
+func (w *World) statusClass(f string) string {
+	indet, _ := w.statusConst("Indet")
+	sat, _ := w.statusConst("Sat")
+	unsat, _ := w.statusConst("Unsat")
+	name := map[string]string{fmt.Sprint(indet): "unbound", fmt.Sprint(sat): "true", fmt.Sprint(unsat): "false"}
+	if strings.HasPrefix(f, "=") {
+		return name[f[1:]]
+	}
+	if strings.HasPrefix(f, "!=") {
+		left := map[string]bool{"unbound": true, "true": true, "false": true}
+		for _, e := range strings.Split(f[2:], ",") {
+			delete(left, name[e])
+		}
+		if len(left) == 1 {
+			for k := range left {
+				return k
+			}
+		}
+	}
+	return ""
+}
